@@ -16,6 +16,9 @@ package relationtuple
 
 //@ ghostvar faulted bool
 //@ ghostvar db int
+// C13 error classes: an error handed to a response writer / returned by a gRPC method is a
+// client error (4xx) unless it reports a server-side failure (srverr: storage, configuration)
+//@ spec clienterr(err error) bool = srverr(err) || (errstatus(err) >= 400 && errstatus(err) < 500)
 
 //@ func Manager.ExistsRelationTuples
 //@   trusted
@@ -27,6 +30,7 @@ package relationtuple
 //@   requires query != nil
 //@   modifies faulted
 //@   ensures faulted == (old(faulted) || result2 != nil)
+//@   ensures[C13] error-class: result2 != nil ==> clienterr(result2)
 //@   ensures forall i in 0..len(result0) :: result0[i] != nil && wfsubject(result0[i].Subject)
 
 //@ func Traverser.TraverseSubjectSetExpansion
@@ -49,6 +53,7 @@ package relationtuple
 
 //@ func (*Mapper).FromTuple
 //@   props C16
+//@   ensures[C13] error-class: err != nil ==> clienterr(err)
 //@   requires m != nil && ctx != nil && m.D != nil
 //@   modifies db
 //@   ensures[C17] read-only-mapper: m.ReadOnly ==> db == old(db)
@@ -76,6 +81,7 @@ package relationtuple
 
 //@ func (*Mapper).FromSubjectSet
 //@   props C16
+//@   ensures[C13] error-class: err != nil ==> clienterr(err)
 //@   requires m != nil && ctx != nil && m.D != nil
 //@   requires[C13] set-present: set != nil
 //@   modifies db
@@ -93,6 +99,7 @@ package relationtuple
 
 //@ func (*Mapper).ToTree
 //@   props C16
+//@   ensures[C13] error-class: err != nil ==> clienterr(err)
 //@   requires m != nil && ctx != nil && m.D != nil && wftree(tree)
 //@   modifies nothing
 //@   ensures[C17] read-only: db == old(db)
@@ -159,6 +166,7 @@ package relationtuple
 // assertion "at most 3 iterations" is an obligation)
 //@ func (*Mapper).FromQuery
 //@   props C16
+//@   ensures[C13] error-class: err != nil ==> clienterr(err)
 //@   requires m != nil && ctx != nil && apiQuery != nil && m.D != nil
 //@   modifies db
 //@   ensures[C17] read-only-mapper: m.ReadOnly ==> db == old(db)
@@ -188,14 +196,17 @@ package relationtuple
 //@ ghost mstr(uuid.UUID) string
 //@ func MappingManager.MapUUIDsToStrings
 //@   trusted
+//@   ensures[C13] error-class: result1 != nil ==> srverr(result1)
 //@   modifies nothing
 //@   ensures result1 == nil ==> len(result0) == len(u) && (forall j in 0..len(u) :: result0[j] == mstr(u[j]))
 //@ func MappingManager.MapStringsToUUIDsReadOnly
 //@   trusted
+//@   ensures[C13] error-class: result1 != nil ==> srverr(result1)
 //@   modifies nothing
 //@   ensures result1 == nil ==> len(result0) == len(s) && (forall j in 0..len(s) :: result0[j] == muuid(s[j]))
 //@ func MappingManager.MapStringsToUUIDs
 //@   trusted
+//@   ensures[C13] error-class: result1 != nil ==> srverr(result1)
 //@   modifies db
 //@   ensures result1 == nil ==> len(result0) == len(s) && (forall j in 0..len(s) :: result0[j] == muuid(s[j]))
 //@ func mapperDependencies.MappingManager
@@ -209,6 +220,7 @@ package relationtuple
 // cells it captured; apply's loop is specified here, in the mapper's vocabulary.
 //@ func (*Mapper).ToTuple
 //@   props C16
+//@   ensures[C13] error-class: err != nil ==> clienterr(err)
 //@   requires m != nil && ctx != nil && m.D != nil
 //@   requires[C16] subject-present: forall i in 0..len(ts) :: ts[i] != nil && wfsubject(ts[i].Subject)
 //@   modifies db
@@ -238,6 +250,7 @@ package relationtuple
 //@ spec wfrh(h *handler) bool = h != nil && h.d != nil
 
 //@ func (*handler).getRelations
+//@   callsite Writer.WriteError requires[C13] client-errors-are-4xx: clienterr($arg3) || wfailed
 //@   props C07 C13 C17
 //@   requires wfrh(h) && r != nil && r.URL != nil && w != nil
 //@   modifies db, faulted, respKind, respCode
@@ -245,6 +258,7 @@ package relationtuple
 //@   loop 1 invariant l != nil
 
 //@ func (*handler).ListRelationTuples
+//@   ensures[C13] client-errors-are-invalid-argument-class: result1 != nil ==> clienterr(result1) || wfailed
 //@   props C07 C13 C17
 //@   requires wfrh(h) && ctx != nil && req != nil
 //@   requires req.RelationQuery != nil ==> wfwiresubject(req.RelationQuery.Subject)
@@ -257,6 +271,7 @@ package relationtuple
 //@   modifies nothing
 //@   requires forall i in 0..len(deltas) :: deltas[i] != nil && (deltas[i].RelationTuple != nil ==> wfwiresubject(deltas[i].RelationTuple.Subject))
 //@   ensures err == nil ==> forall k in 0..len(filtered) :: filtered[k] != nil
+//@   ensures[C13] error-class: err != nil ==> errstatus(err) == 400
 //@   loop 1 invariant (isnil(filtered) || fresh(filtered))
 //@   loop 1 invariant forall k in 0..len(filtered) :: filtered[k] != nil
 
@@ -267,12 +282,14 @@ package relationtuple
 //@   loop 1 invariant (isnil(filtered) || fresh(filtered))
 
 //@ func (*handler).TransactRelationTuples
+//@   ensures[C13] client-errors-are-invalid-argument-class: result1 != nil ==> clienterr(result1) || wfailed
 //@   props C04 C05 C13
 //@   requires wfrh(h) && ctx != nil && req != nil
 //@   requires forall i in 0..len(req.RelationTupleDeltas) :: req.RelationTupleDeltas[i] != nil && (req.RelationTupleDeltas[i].RelationTuple != nil ==> wfwiresubject(req.RelationTupleDeltas[i].RelationTuple.Subject))
 
 //@ func (*handler).TransactRelationTuples$1
 //@   props C04 C05 C13
+//@   ensures[C13] error-class: result != nil ==> clienterr(result) || wfailed
 //@   noframe
 //@   requires wfrh(h) && ctx != nil
 //@   modifies db, wfailed
@@ -280,17 +297,20 @@ package relationtuple
 //@   ensures[C05] error-returned: !old(wfailed) && result == nil ==> !wfailed
 
 //@ func (*handler).DeleteRelationTuples
+//@   ensures[C13] client-errors-are-invalid-argument-class: result1 != nil ==> clienterr(result1) || wfailed
 //@   props C04 C13
 //@   requires wfrh(h) && ctx != nil && req != nil
 //@   requires req.RelationQuery != nil ==> wfwiresubject(req.RelationQuery.Subject)
 //@   requires req.Query != nil ==> wfwiresubject(req.Query.Subject)
 
 //@ func (*handler).createRelation
+//@   callsite Writer.WriteError requires[C13] client-errors-are-4xx: clienterr($arg3) || wfailed
 //@   props C04 C05 C13
 //@   requires wfrh(h) && r != nil && r.URL != nil && w != nil && r.Body != nil
 
 //@ func (*handler).createRelation$1
 //@   props C04 C05 C13
+//@   ensures[C13] error-class: result != nil ==> clienterr(result) || wfailed
 //@   noframe
 //@   requires wfrh(h) && ctx != nil
 //@   modifies db, wfailed
@@ -298,17 +318,20 @@ package relationtuple
 //@   ensures[C05] error-returned: !old(wfailed) && result == nil ==> !wfailed
 
 //@ func (*handler).deleteRelations
+//@   callsite Writer.WriteError requires[C13] client-errors-are-4xx: clienterr($arg3) || wfailed
 //@   props C04 C13
 //@   requires wfrh(h) && r != nil && r.URL != nil && w != nil
 //@   loop 1 invariant l != nil
 
 //@ func (*handler).patchRelationTuples
+//@   callsite Writer.WriteError requires[C13] client-errors-are-4xx: clienterr($arg3) || wfailed
 //@   props C04 C05 C13
 //@   requires wfrh(h) && r != nil && r.URL != nil && w != nil && r.Body != nil
 //@   loop 1 invariant forall k in 0..$n :: deltas[k] != nil && deltas[k].RelationTuple != nil
 
 //@ func (*handler).patchRelationTuples$1
 //@   props C04 C05 C13
+//@   ensures[C13] error-class: result != nil ==> clienterr(result) || wfailed
 //@   noframe
 //@   requires wfrh(h) && ctx != nil
 //@   modifies db, wfailed
